@@ -268,11 +268,15 @@ package filters
 //@ requires args: length != nil && ellipsis != nil
 //@ assigns alloc S$Int, alloc S$Val
 
+// a string of at most n words is returned as it is: the ellipsis is appended only when
+// something other than whitespace follows the first n words (pinned by the guard's calls)
 //@ func filter "truncatewords"
 //@ overflow
 //@ props C01 C16
 //@ panics values.TypeError
 //@ requires args: length != nil && ellipsis != nil
+//@ at call TrimPrefix #1 before assert restOfInput: arg0 == s
+//@ at call TrimPrefix #2 before assert restOfInput2: arg0 == s
 //@ assigns alloc S$Int, alloc S$Val
 
 //@ func (filters.keySortable).Less
